@@ -393,7 +393,8 @@ pub fn c17_td_mul_units() {
 
 // ---- scratch (to be removed) ----
 fn total_ns(secs: i64, nanos: u32) -> i64 {
-    if secs < 0 && nanos > 0 { (secs + 1) * NS + (nanos as i64 - NS) } else { secs * NS + nanos as i64 }
+    let (s1, n1) = if secs < 0 && nanos > 0 { (secs + 1, nanos as i64 - NS) } else { (secs, nanos as i64) };
+    s1 * NS + n1
 }
 fn x_shift() -> (TimeDelta, i64) {
     let secs: i64 = kani::any();
@@ -408,7 +409,7 @@ fn x_shift() -> (TimeDelta, i64) {
 }
 #[kani::proof]
 #[kani::stub(std::fmt::format, crate::util::fmt_stub)]
-pub fn c17_x_add2() {
+pub fn c17_x_add3() {
     let t = any_time_of_day();
     let (d, dn) = x_shift();
     let exp = t.0 + dn;
@@ -419,7 +420,7 @@ pub fn c17_x_add2() {
 }
 #[kani::proof]
 #[kani::stub(std::fmt::format, crate::util::fmt_stub)]
-pub fn c17_x_inv2() {
+pub fn c17_x_inv3() {
     let t = any_time_of_day();
     let (d, dn) = x_shift();
     if t.0 + dn >= 0 && t.0 + dn < DAY_NS {
@@ -429,96 +430,66 @@ pub fn c17_x_inv2() {
         assert!(((t - d) + d).0 == t.0, "time - duration + duration is the original time");
     }
 }
-/// as_cr law on a block of seconds
-fn x_view(lo: i64, hi: i64, getters: bool) {
-    let (h, m, s) = any_hms();
-    let n: i64 = kani::any();
-    kani::assume(n >= 0 && n < NS);
-    kani::assume(h >= lo && h < hi);
-    let sod = h * 3600 + m * 60 + s;
-    let t = Time(sod * NS + n);
+fn x_recomb(lo: i64, hi: i64) {
+    let v: i64 = kani::any();
+    kani::assume(v >= lo && v < hi);
+    let t = Time(v);
     match t.as_cr() {
         Some(nt) => {
-            assert!(nt.num_seconds_from_midnight() as i64 == sod, "as_cr second of day");
-            assert!(nt.nanosecond() as i64 == n, "as_cr nanosecond");
-            assert!(Time::from_cr(&nt).0 == t.0, "Time -> NaiveTime -> Time identity");
+            assert!(Time::from_cr(&nt).0 == v, "Time -> NaiveTime -> Time identity");
+            assert!(nt.num_seconds_from_midnight() as i64 * NS + nt.nanosecond() as i64 == v, "as_cr recombines");
         },
         None => assert!(false, "a time of day inside 0..86400 s has a NaiveTime"),
     }
-    if getters {
-        check_components(t, h, m, s, n);
+    let (h, m, s, n) = (t.hour() as i64, t.minute() as i64, t.second() as i64, t.nanosecond() as i64);
+    assert!(h < 24 && m < 60 && s < 60 && n < NS, "components in range");
+    assert!((h * 3600 + m * 60 + s) * NS + n == v, "components recombine to the time of day");
+}
+#[kani::proof]
+#[kani::stub(std::fmt::format, crate::util::fmt_stub)]
+pub fn c17_x_recomb6() { x_recomb(0, 6 * 3600 * NS) }
+#[kani::proof]
+#[kani::solver(kissat)]
+#[kani::stub(std::fmt::format, crate::util::fmt_stub)]
+pub fn c17_x_recomb6k() { x_recomb(0, 6 * 3600 * NS) }
+fn x_direct(lo: u32, hi: u32) {
+    let secs: u32 = kani::any();
+    let frac: u32 = kani::any();
+    kani::assume(secs >= lo && secs < hi && frac < 1_000_000_000);
+    let nt = NaiveTime::from_num_seconds_from_midnight_opt(secs, frac).unwrap();
+    let t = Time::from_cr(&nt);
+    assert!(t.0 == secs as i64 * NS + frac as i64, "from_cr is nanoseconds since midnight");
+    match t.as_cr() {
+        Some(back) => assert!(back == nt, "NaiveTime -> Time -> NaiveTime identity"),
+        None => assert!(false, "from_cr result converts back"),
     }
 }
 #[kani::proof]
 #[kani::stub(std::fmt::format, crate::util::fmt_stub)]
-pub fn c17_x_view6() { x_view(0, 6, false) }
+pub fn c17_x_direct12() { x_direct(0, 4096) }
 #[kani::proof]
 #[kani::stub(std::fmt::format, crate::util::fmt_stub)]
-pub fn c17_x_view6g() { x_view(0, 6, true) }
-#[kani::proof]
-#[kani::solver(kissat)]
-#[kani::stub(std::fmt::format, crate::util::fmt_stub)]
-pub fn c17_x_view6gk() { x_view(0, 6, true) }
-/// chrono's own decomposition
+pub fn c17_x_direct14() { x_direct(0, 16384) }
 #[kani::proof]
 #[kani::stub(std::fmt::format, crate::util::fmt_stub)]
-pub fn c17_x_naive_hms() {
-    let (h, m, s) = any_hms();
-    let n: u32 = kani::any();
-    kani::assume(n < 1_000_000_000);
-    let nt = NaiveTime::from_num_seconds_from_midnight_opt((h * 3600 + m * 60 + s) as u32, n).unwrap();
-    assert!(nt.hour() as i64 == h && nt.minute() as i64 == m && nt.second() as i64 == s, "hms");
-}
-fn x_internal(d: Duration) -> (i64, i64) {
-    let (vs, vn) = (d.num_seconds(), d.subsec_nanos() as i64);
-    if vn < 0 { (vs - 1, vn + NS) } else { (vs, vn) }
-}
-fn x_mulval2(k: i32) {
-    let months: i32 = kani::any();
-    let secs: i64 = kani::any();
-    let nanos: u32 = kani::any();
-    kani::assume(months >= -1200 && months <= 1200);
-    kani::assume(secs >= -MUL_LIM && secs <= MUL_LIM);
-    kani::assume(nanos < 1_000_000_000);
-    let a = TimeDelta { months, inner: Duration::new(secs, nanos).unwrap() };
-    let r = a * k;
-    assert!(r.months == months * k, "months scale");
-    let (rs, rn) = x_internal(r.inner);
-    let e = rs - secs * k as i64;
-    assert!(rn >= 0 && rn < NS, "normal form");
-    assert!(e * NS + rn == nanos as i64 * k as i64, "sub-second part scales with carry e");
-}
-#[kani::proof]
-#[kani::stub(std::fmt::format, crate::util::fmt_stub)]
-pub fn c17_x_mulval2_m7() { x_mulval2(-7) }
-#[kani::proof]
-#[kani::stub(std::fmt::format, crate::util::fmt_stub)]
-pub fn c17_x_mulval2_sym() {
-    let k: i32 = kani::any();
-    kani::assume(k >= -8 && k <= 8);
-    x_mulval2(k)
-}
-#[kani::proof]
-#[kani::stub(std::fmt::format, crate::util::fmt_stub)]
-pub fn c17_x_muldist_tiny() {
-    let a = any_delta(8);
-    let b = any_delta(8);
-    assert!(td_eq((a + b) * 3, a * 3 + b * 3), "(a + b) * k == a * k + b * k");
-}
-fn x_delta_eighths(lim: i64) -> TimeDelta {
-    let months: i32 = kani::any();
-    kani::assume(months >= -1200 && months <= 1200);
-    let secs: i64 = kani::any();
-    let e: u32 = kani::any();
-    kani::assume(secs >= -lim && secs <= lim && e < 8);
-    TimeDelta { months, inner: Duration::new(secs, e * 125_000_000).unwrap() }
-}
-#[kani::proof]
-#[kani::stub(std::fmt::format, crate::util::fmt_stub)]
-pub fn c17_x_muldist_eighths() {
-    let a = x_delta_eighths(MUL_LIM);
-    let b = x_delta_eighths(MUL_LIM);
+pub fn c17_x_muldist_whole() {
+    let mut a = any_delta(MUL_LIM);
+    let mut b = any_delta(MUL_LIM);
+    kani::assume(a.inner.subsec_nanos() == 0 && b.inner.subsec_nanos() == 0);
     let k: i32 = kani::any();
     kani::assume(k >= -8 && k <= 8);
     assert!(td_eq((a + b) * k, a * k + b * k), "(a + b) * k == a * k + b * k");
+}
+#[kani::proof]
+#[kani::stub(std::fmt::format, crate::util::fmt_stub)]
+pub fn c17_x_ctor() {
+    let (h, m, s) = any_hms();
+    let sod = h * 3600 + m * 60 + s;
+    let x: i64 = kani::any();
+    kani::assume(x >= 0 && x < NS);
+    assert!(Time::from_hms(h, m, s).0 == sod * NS, "from_hms value");
+    assert!(Time::from_hms_nano(h, m, s, x).0 == sod * NS + x, "from_hms_nano value");
+    if x < 1_000_000 { assert!(Time::from_hms_micro(h, m, s, x).0 == sod * NS + x * 1000, "from_hms_micro value"); }
+    if x < 1_000 { assert!(Time::from_hms_milli(h, m, s, x).0 == sod * NS + x * 1_000_000, "from_hms_milli value"); }
+    assert!(Time::from_num_seconds_from_midnight(sod, x).0 == sod * NS + x, "from_num_seconds_from_midnight value");
 }
